@@ -1,1 +1,2 @@
 import Rink.Props.C19
+import Rink.Props.C01
